@@ -6,8 +6,10 @@ REPO="${VERIF_REPO:-/repo}"
 . "$VERIF/tools/env.sh"
 build_ovgen || exit 1
 S="$(mktemp -d)"; trap 'rm -rf "$S"' EXIT
-"$VERIF/bin/ovgen" -repo "$REPO" -verif "$VERIF" -out "$S/ov" || exit 1
+EXTRA=""
+"$VERIF/bin/ovgen" -repo "$REPO" -verif "$VERIF" -out "$S/ov" $EXTRA || exit 1
 (cd "$REPO" && $GO build -tags verif -overlay "$S/ov/overlay.json" -o "$S/vcheck" github.com/istio-ecosystem/authservice/zzverif/cmd/vcheck) || exit 1
-(cd "$REPO" && $GO build -race -tags verif -overlay "$S/ov/overlay.json" -o "$S/vcheck-race" github.com/istio-ecosystem/authservice/zzverif/cmd/vcheck) || exit 1
+"$VERIF/bin/ovgen" -repo "$REPO" -verif "$VERIF" -out "$S/ovr" -funcpoints -racepool "$(cd "$REPO" && $GO env GOROOT)" $EXTRA || exit 1
+(cd "$REPO" && $GO build -race -tags verif -overlay "$S/ovr/overlay.json" -o "$S/vcheck-race" github.com/istio-ecosystem/authservice/zzverif/cmd/vcheck) || exit 1
 (cd "$REPO" && $GO build -o "$S/authservice" ./cmd) || exit 1
 echo "setup ok"
